@@ -2,7 +2,7 @@
    [gexec ops] runs any operation sequence (each operation is one critical section of the implementation, so
    operation sequences are exactly the interleavings at lock granularity, for any number of threads and keys). *)
 From Coq Require Import List NArith ZArith Bool Arith.
-From Alp Require Import Model.Queue Proofs.QueueProofs.
+From Alp Require Import Model.Queue Proofs.QueueProofs Model.Idle Proofs.IdleProofs.
 Import ListNotations.
 
 (* every item put is accounted for: still queued, still deferred, handed out, or discarded by join() — with
@@ -44,6 +44,17 @@ Theorem C11_join_no_lost_wakeup : forall s o,
   join_may_return s = false -> join_may_return (fst (step s o)) = true -> exists k, o = Done k /\ all_done (fst (step s o)) = true.
 Proof. exact only_task_done_enables_join. Qed.
 Print Assumptions C11_join_no_lost_wakeup.
+
+(* "a node is reported idle exactly when it has no queued or running task": UpdateableNode.idle is the emptiness of the node's FIFO
+   (whose reported size is the true number of queued plus running items by the theorems above); a group is reported idle exactly
+   when its own FIFO is empty, its nodes are known and every one of them is idle *)
+Theorem C11_group_idle_iff : forall size g nodes, group_idle size g nodes = true <->
+  size g = 0%N /\ exists ns, nodes = Some ns /\ forall n, In n ns -> size n = 0%N.
+Proof. exact group_idle_iff. Qed.
+Print Assumptions C11_group_idle_iff.
+Theorem C11_group_busy_has_witness : forall size g ns, group_idle size g (Some ns) = false -> size g <> 0%N \/ exists n, In n ns /\ size n <> 0%N.
+Proof. exact group_not_idle_witness. Qed.
+Print Assumptions C11_group_busy_has_witness.
 
 Example C11_example : run empty ex_ops =
   [ONone; ONone; ONone; OBool true; OItem (Some 1%N); OItem None; ONone; OItem (Some 2%N); OItem None; ONat 2; ONone;
